@@ -2,5 +2,9 @@
 package checks
 
 import (
+	_ "verif/mc/checks/c09"
+	_ "verif/mc/checks/c18"
+	_ "verif/mc/checks/c19"
+	_ "verif/mc/checks/c20"
 	_ "verif/mc/families"
 )
